@@ -124,12 +124,11 @@ for group in cssutils.profiles.properties:
 
 
 # add CSS2Properties to CSSStyleDeclaration:
-def __named_property_def(DOMname):
+def __named_property_def(CSSname):
     """
-    Closure to keep name known in each properties accessor function
-    DOMname is converted to CSSname here, so actual calls use CSSname.
+    Closure to keep name known in each properties accessor function,
+    actual calls use CSSname.
     """
-    CSSname = _toCSSname(DOMname)
 
     def _get(self):
         return self._getP(CSSname)
@@ -144,5 +143,10 @@ def __named_property_def(DOMname):
 
 
 # add all CSS2Properties to CSSStyleDeclaration
-for DOMname in CSS2Properties._properties:
-    setattr(CSS2Properties, DOMname, property(*__named_property_def(DOMname)))
+# (the CSS name is taken from the profiles, _toCSSname cannot recover
+# names with a single letter part like "overflow-x")
+for group in cssutils.profiles.properties:
+    for name in cssutils.profiles.properties[group]:
+        setattr(
+            CSS2Properties, _toDOMname(name), property(*__named_property_def(name))
+        )
